@@ -22,7 +22,7 @@ pub struct PoolEnr {
 /// Records per key slot: a record is only ever used as the value of one key (in the real system
 /// the key is the record's node id), in `VARIANTS` versions that differ in their addresses.
 pub const VARIANTS: usize = 4;
-pub const SLOTS: usize = 128;
+pub const SLOTS: usize = 256;
 
 pub fn make_pool() -> Vec<PoolEnr> {
     let mut pool = vec![];
@@ -797,6 +797,13 @@ pub fn check_c16(ctx: &Ctx, d: &TDump) -> Option<String> {
                 *table.entry(s).or_insert(0) += 1;
             }
         }
+        // a pending node is part of the table count: it enters its bucket without a further
+        // table-filter check
+        if let Some(p) = &b.pending {
+            if let Some(s) = ctx.sub(p.vid) {
+                *table.entry(s).or_insert(0) += 1;
+            }
+        }
         if let Some((s, c)) = per.iter().find(|(_, c)| **c > 2) {
             return Some(format!("bucket {} holds {} nodes of subnet {:x}", b.idx, c, s));
         }
@@ -821,7 +828,8 @@ pub fn gen_case(rng: &mut Rng, pool_len: usize, focus: &str, nops: usize) -> Gen
     local.copy_from_slice(&rng.bytes(32));
     let filters = match focus {
         "c16" => true,
-        "c07" | "c08" => rng.chance(1, 5),
+        "c07" => false,
+        "c08" => rng.chance(1, 5),
         _ => rng.chance(1, 2),
     };
     let max_incoming = match rng.below(4) {
@@ -936,11 +944,12 @@ pub fn gen_case(rng: &mut Rng, pool_len: usize, focus: &str, nops: usize) -> Gen
     let fill = 0;
     for n in 0..nops {
         let w: &[u64] = if n < fill {
-            &[60, 8, 4, 2, 6, 1, 2, 2, 3, 2]
+            &[60, 8, 4, 2, 6, 1, 2, 0, 0, 2]
         } else if focus == "c08" {
             &[20, 10, 6, 6, 8, 2, 3, 12, 30, 3]
         } else {
-            &[25, 18, 12, 8, 14, 3, 5, 5, 6, 4]
+            // closest / nodes_by_distances results are C08's observations
+            &[25, 18, 12, 8, 14, 3, 5, 0, 0, 4]
         };
         let op = match rng.weighted(w) {
             0 => {
